@@ -15,6 +15,22 @@ pub open spec fn hops(p: Seq<u8>, off: int, barrier: int, lowest: int, refs: int
         else { hops(p, off + b + 1, barrier, lowest, refs, nlen + b + 1) } }
 }
 
+
+// the walk reads no byte of the window [w0, w1) (same recursion as `walk`; meaningful where `walk` succeeds)
+pub open spec fn avoid(p: Seq<u8>, off: int, barrier: int, lowest: int, refs: int, nlen: int, w0: int, w1: int) -> bool
+    decreases refs, p.len() - off
+{
+    if !(0 <= lowest <= off && refs >= 0) { true }
+    else if off >= barrier || off >= p.len() { true }
+    else { let b = p[off];
+        if b & 0xc0 == 0xc0 {
+            if refs <= 0 || off + 2 > p.len() { true }
+            else { let t = ptr_target(b, p[off + 1]);
+                (off + 2 <= w0 || off >= w1) && (if t >= lowest { true } else if p[t] == 0 { true } else { avoid(p, t, lowest, t, refs - 1, nlen, w0, w1) }) }
+        } else if b > 63 { true } else if off + b + 1 > p.len() { true } else if nlen + b + 1 > 255 { true }
+        else if has_bad(p, off + 1, off + 1 + b) { true }
+        else { (off + b + 1 <= w0 || off >= w1) && (if b == 0 { true } else { avoid(p, off + b + 1, barrier, lowest, refs, nlen + b + 1, w0, w1) }) } }
+}
 pub proof fn lemma_hops_bounds(p: Seq<u8>, off: int, barrier: int, lowest: int, refs: int, nlen: int)
     ensures 0 <= hops(p, off, barrier, lowest, refs, nlen) <= (if refs >= 0 { refs } else { 0 })
     decreases refs, p.len() - off
@@ -34,11 +50,12 @@ pub proof fn lemma_has_bad_ext(p: Seq<u8>, p2: Seq<u8>, a: int, b: int)
 }
 // a valid name stays the same name when the buffer grows, the first segment is given more room, the pointer budget is lowered
 // to no less than the pointers actually followed, and the length already accumulated changes (as long as the total stays <= 255)
-pub proof fn lemma_walk_transport(p: Seq<u8>, p2: Seq<u8>, off: int, ba: int, ba2: int, lo: int, refs: int, r2: int, nlen: int, n2: int, fend: Option<int>)
+pub proof fn lemma_walk_transport(p: Seq<u8>, p2: Seq<u8>, off: int, ba: int, ba2: int, lo: int, refs: int, r2: int, nlen: int, n2: int, fend: Option<int>, w0: int, w1: int)
     requires walk(p, off, ba, lo, refs, nlen, fend).is_some(), ba <= p.len(), p.len() <= p2.len(), forall|i: int| 0 <= i < p.len() ==> p2[i] == p[i],
         ba <= ba2 <= p2.len(), hops(p, off, ba, lo, refs, nlen) <= r2, 0 <= nlen, 0 <= n2, n2 + exp(p, off, ba, lo, refs, nlen).len() <= 255,
     ensures walk(p2, off, ba2, lo, r2, n2, fend) == walk(p, off, ba, lo, refs, nlen, fend),
         exp(p2, off, ba2, lo, r2, n2) == exp(p, off, ba, lo, refs, nlen), hops(p2, off, ba2, lo, r2, n2) == hops(p, off, ba, lo, refs, nlen),
+        avoid(p2, off, ba2, lo, r2, n2, w0, w1) == avoid(p, off, ba, lo, refs, nlen, w0, w1),
     decreases refs, p.len() - off
 {
     let b = p[off];
@@ -54,12 +71,12 @@ pub proof fn lemma_walk_transport(p: Seq<u8>, p2: Seq<u8>, off: int, ba: int, ba
         assert(hops(p, off, ba, lo, refs, nlen) == 1 + hops(p, t, lo, t, refs - 1, nlen));
         assert(exp(p, off, ba, lo, refs, nlen) == exp(p, t, lo, t, refs - 1, nlen));
         assert(p2[t] == p[t]);
-        lemma_walk_transport(p, p2, t, lo, lo, t, refs - 1, r2 - 1, nlen, n2, f2);
+        lemma_walk_transport(p, p2, t, lo, lo, t, refs - 1, r2 - 1, nlen, n2, f2, w0, w1);
     } else if b == 0 {
     } else {
         lemma_has_bad_ext(p, p2, off + 1, off + 1 + b);
         lemma_exp_len(p, off + b + 1, ba, lo, refs, nlen + b + 1, fend);
-        lemma_walk_transport(p, p2, off + b + 1, ba, ba2, lo, refs, r2, nlen + b + 1, n2 + b + 1, fend);
+        lemma_walk_transport(p, p2, off + b + 1, ba, ba2, lo, refs, r2, nlen + b + 1, n2 + b + 1, fend, w0, w1);
     }
 }
 
@@ -71,11 +88,12 @@ pub open spec fn clean_run(p: Seq<u8>, a: int, x: int) -> bool
     else { let b = p[a]; 0 < b <= 63 && a + b + 1 <= x && !has_bad(p, a + 1, a + 1 + b) && clean_run(p, a + b + 1, x) }
 }
 // whole labels followed by a valid rest are a valid name: labels ++ expansion of the rest
-pub proof fn lemma_run_then(p: Seq<u8>, a: int, x: int, ba: int, lo: int, refs: int, nlen: int, fend: Option<int>)
+pub proof fn lemma_run_then(p: Seq<u8>, a: int, x: int, ba: int, lo: int, refs: int, nlen: int, fend: Option<int>, w0: int, w1: int)
     requires clean_run(p, a, x), 0 <= lo <= a, 0 <= nlen, walk(p, x, ba, lo, refs, nlen + (x - a), fend).is_some()
     ensures walk(p, a, ba, lo, refs, nlen, fend) == walk(p, x, ba, lo, refs, nlen + (x - a), fend),
         exp(p, a, ba, lo, refs, nlen) == p.subrange(a, x) + exp(p, x, ba, lo, refs, nlen + (x - a)),
         hops(p, a, ba, lo, refs, nlen) == hops(p, x, ba, lo, refs, nlen + (x - a)),
+        (x <= w0 || a >= w1) ==> avoid(p, a, ba, lo, refs, nlen, w0, w1) == avoid(p, x, ba, lo, refs, nlen + (x - a), w0, w1),
     decreases x - a
 {
     if a == x { assert(p.subrange(a, x) + exp(p, x, ba, lo, refs, nlen) =~= exp(p, x, ba, lo, refs, nlen)); }
@@ -83,24 +101,25 @@ pub proof fn lemma_run_then(p: Seq<u8>, a: int, x: int, ba: int, lo: int, refs: 
         let b = p[a];
         assert(b & 0xc0 != 0xc0) by(bit_vector) requires b <= 63;
         lemma_exp_len(p, x, ba, lo, refs, nlen + (x - a), fend);
-        lemma_run_then(p, a + b + 1, x, ba, lo, refs, nlen + b + 1, fend);
+        lemma_run_then(p, a + b + 1, x, ba, lo, refs, nlen + b + 1, fend, w0, w1);
         assert(p.subrange(a, a + b + 1) + p.subrange(a + b + 1, x) =~= p.subrange(a, x));
         assert(p.subrange(a, a + b + 1) + (p.subrange(a + b + 1, x) + exp(p, x, ba, lo, refs, nlen + (x - a))) =~= p.subrange(a, x) + exp(p, x, ba, lo, refs, nlen + (x - a)));
     }
 }
 // F8 (pointer case): the output c1 ends with whole labels c1[a..x) followed by a pointer to q, where q already held a valid name in the
 // shorter output c0 that follows at most 15 pointers: then c1 holds at a the name  labels ++ (name at q), valid under the parser's rule
-pub proof fn lemma_emit_ptr(c0: Seq<u8>, c1: Seq<u8>, a: int, x: int, q: int)
+pub proof fn lemma_emit_ptr(c0: Seq<u8>, c1: Seq<u8>, a: int, x: int, q: int, w0: int, w1: int)
     requires c0.len() <= c1.len(), forall|i: int| 0 <= i < c0.len() ==> c1[i] == c0[i],
         c0.len() <= a <= x, x + 2 == c1.len(), clean_run(c1, a, x), c1[x] & 0xc0 == 0xc0, ptr_target(c1[x], c1[x + 1]) == q,
         0 <= q < c0.len(), name_end(c0, q).is_some(), hops(c0, q, c0.len() as int, q, 16, 0) <= 15, c0[q] != 0,
         (x - a) + name_exp(c0, q).len() <= 255,
     ensures name_end(c1, a) == Some(x + 2), name_exp(c1, a) == c1.subrange(a, x) + name_exp(c0, q),
         hops(c1, a, c1.len() as int, a, 16, 0) == 1 + hops(c0, q, c0.len() as int, q, 16, 0),
+        w1 <= c0.len() ==> avoid(c1, a, c1.len() as int, a, 16, 0, w0, w1) == avoid(c0, q, c0.len() as int, q, 16, 0, w0, w1),
 {
     let n = x - a;
     // the old name, read in the new buffer with the room, budget and accumulated length it has after the jump
-    lemma_walk_transport(c0, c1, q, c0.len() as int, a, q, 16, 15, 0, n, None);
+    lemma_walk_transport(c0, c1, q, c0.len() as int, a, q, 16, 15, 0, n, None, w0, w1);
     lemma_walk_fend(c1, q, a, q, 15, n, None, Some(x + 2));
     lemma_walk_bounds(c1, q, a, q, 15, n, Some(x + 2));
     assert(walk(c1, q, a, q, 15, n, Some(x + 2)) == Some(x + 2));
@@ -109,8 +128,9 @@ pub proof fn lemma_emit_ptr(c0: Seq<u8>, c1: Seq<u8>, a: int, x: int, q: int)
     assert(walk(c1, x, c1.len() as int, a, 16, n, None) == walk(c1, q, a, q, 15, n, Some(x + 2)));
     assert(exp(c1, x, c1.len() as int, a, 16, n) == exp(c1, q, a, q, 15, n));
     assert(hops(c1, x, c1.len() as int, a, 16, n) == 1 + hops(c1, q, a, q, 15, n));
+    assert(w1 <= c0.len() ==> avoid(c1, x, c1.len() as int, a, 16, n, w0, w1) == avoid(c1, q, a, q, 15, n, w0, w1));
     // the labels before it
-    lemma_run_then(c1, a, x, c1.len() as int, a, 16, 0, None);
+    lemma_run_then(c1, a, x, c1.len() as int, a, 16, 0, None, w0, w1);
 }
 // F8 (literal case): a clean pointer-free name copied to the end of the output is that name, and follows no pointer
 pub proof fn lemma_pcs_hops(p: Seq<u8>, off: int, lowest: int, refs: int, nlen: int)
@@ -118,6 +138,64 @@ pub proof fn lemma_pcs_hops(p: Seq<u8>, off: int, lowest: int, refs: int, nlen: 
     ensures hops(p, off, p.len() as int, lowest, refs, nlen) == 0
     decreases p.len() - off
 { let b = p[off]; if b != 0 { lemma_pcs_hops(p, off + b + 1, lowest, refs, nlen + b + 1); } }
+pub proof fn lemma_pcs_avoid(p: Seq<u8>, off: int, lowest: int, refs: int, nlen: int, w0: int, w1: int)
+    requires pcs_walk(p, off, nlen).is_some(), 0 <= lowest <= off, refs >= 0, w1 <= off
+    ensures avoid(p, off, p.len() as int, lowest, refs, nlen, w0, w1)
+    decreases p.len() - off
+{ let b = p[off]; if b != 0 { lemma_pcs_avoid(p, off + b + 1, lowest, refs, nlen + b + 1, w0, w1); } }
+// a name that lies entirely below the window does not read it
+pub proof fn lemma_avoid_low(p: Seq<u8>, off: int, ba: int, lo: int, refs: int, nlen: int, w0: int, w1: int)
+    requires p.len() <= w0
+    ensures avoid(p, off, ba, lo, refs, nlen, w0, w1)
+    decreases refs, p.len() - off
+{
+    if !(0 <= lo <= off && refs >= 0) {} else if off >= ba || off >= p.len() {} else {
+        let b = p[off];
+        if b & 0xc0 == 0xc0 { if refs <= 0 || off + 2 > p.len() {} else { let t = ptr_target(b, p[off + 1]); if t >= lo {} else if p[t] == 0 {} else { lemma_avoid_low(p, t, lo, t, refs - 1, nlen, w0, w1); } } }
+        else if b > 63 {} else if off + b + 1 > p.len() {} else if nlen + b + 1 > 255 {} else if has_bad(p, off + 1, off + 1 + b) {} else if b == 0 {} else { lemma_avoid_low(p, off + b + 1, ba, lo, refs, nlen + b + 1, w0, w1); }
+    }
+}
+// bytes of the window are rewritten: a name that does not read the window is the same name
+pub proof fn lemma_walk_window(p: Seq<u8>, p2: Seq<u8>, off: int, ba: int, lo: int, refs: int, nlen: int, fend: Option<int>, w0: int, w1: int)
+    requires walk(p, off, ba, lo, refs, nlen, fend).is_some(), avoid(p, off, ba, lo, refs, nlen, w0, w1), p2.len() == p.len(), ba <= p.len(),
+        forall|i: int| 0 <= i < p.len() && !(w0 <= i < w1) ==> p2[i] == p[i],
+    ensures walk(p2, off, ba, lo, refs, nlen, fend) == walk(p, off, ba, lo, refs, nlen, fend), exp(p2, off, ba, lo, refs, nlen) == exp(p, off, ba, lo, refs, nlen),
+        hops(p2, off, ba, lo, refs, nlen) == hops(p, off, ba, lo, refs, nlen), avoid(p2, off, ba, lo, refs, nlen, w0, w1),
+    decreases refs, p.len() - off
+{
+    let b = p[off];
+    if b & 0xc0 == 0xc0 {
+        let t = ptr_target(b, p[off + 1]);
+        assert(0 <= t) by { let hi = b; let l = p[off + 1]; assert(((((hi & 0x3f) as u16) << 8) | (l as u16)) >= 0u16) by(bit_vector); }
+        let f2 = if fend.is_some() { fend } else { Some(off + 2) };
+        assert(p2[off] == b && p2[off + 1] == p[off + 1]);
+        assert(walk(p, off, ba, lo, refs, nlen, fend) == walk(p, t, lo, t, refs - 1, nlen, f2));
+        assert(avoid(p, t, lo, t, refs - 1, nlen, w0, w1));
+        lemma_walk_window(p, p2, t, lo, t, refs - 1, nlen, f2, w0, w1);
+        // the byte at the target is read by the walk from t (it is not the root label, so it is a label length or a pointer byte outside the window)
+        assert(p2[t] == p[t]) by { let bt = p[t]; assert(avoid(p, t, lo, t, refs - 1, nlen, w0, w1)); }
+    } else if b == 0 {
+        assert(p2[off] == b);
+    } else {
+        assert(p2[off] == b);
+        assert(has_bad(p2, off + 1, off + 1 + b) == has_bad(p, off + 1, off + 1 + b)) by {
+            if has_bad(p, off + 1, off + 1 + b) { let i = choose|i: int| off + 1 <= i < off + 1 + b && bad_char(#[trigger] p[i]); assert(bad_char(p2[i])); }
+            if has_bad(p2, off + 1, off + 1 + b) { let i = choose|i: int| off + 1 <= i < off + 1 + b && bad_char(#[trigger] p2[i]); assert(bad_char(p[i])); }
+        }
+        lemma_walk_window(p, p2, off + b + 1, ba, lo, refs, nlen + b + 1, fend, w0, w1);
+    }
+}
+pub proof fn lemma_dict_window(d: SuffixDict, c: Seq<u8>, c2: Seq<u8>, w0: int, w1: int)
+    requires dict_ok(d, c), dict_avoid(d, c, w0, w1), c2.len() == c.len(), forall|i: int| 0 <= i < c.len() && !(w0 <= i < w1) ==> c2[i] == c[i]
+    ensures dict_ok(d, c2), dict_avoid(d, c2, w0, w1)
+{
+    assert forall|s: int| 0 <= s < d.count implies enc_ok(c2, #[trigger] d.view()[s].1, d.view()[s].0) && avoid(c2, d.view()[s].1, c2.len() as int, d.view()[s].1, 16, 0, w0, w1) by {
+        let q = d.view()[s].1;
+        lemma_walk_window(c, c2, q, c.len() as int, q, 16, 0, None, w0, w1);
+        // c[q] is read by the walk (first byte of the name)
+        assert(c2[q] == c[q]) by { let bq = c[q]; if bq & 0xc0 == 0xc0 { } else { } }
+    }
+}
 // case-insensitive equality is kept by a common prefix
 pub proof fn lemma_eq_ci_prefix(l: Seq<u8>, x: Seq<u8>, y: Seq<u8>)
     requires eq_ci(x, y)
@@ -141,15 +219,24 @@ pub open spec fn enc_ok(out: Seq<u8>, q: int, nm: Seq<u8>) -> bool {
 pub open spec fn dict_ok(d: SuffixDict, out: Seq<u8>) -> bool {
     forall|s: int| 0 <= s < d.count ==> enc_ok(out, #[trigger] d.view()[s].1, d.view()[s].0)
 }
+// no live entry reads a byte of the window [w0, w1)
+pub open spec fn dict_avoid(d: SuffixDict, out: Seq<u8>, w0: int, w1: int) -> bool {
+    forall|s: int| 0 <= s < d.count ==> avoid(out, #[trigger] d.view()[s].1, out.len() as int, d.view()[s].1, 16, 0, w0, w1)
+}
 // the output only grows: what an entry designated it still designates
-pub proof fn lemma_enc_ok_ext(c0: Seq<u8>, c1: Seq<u8>, q: int, nm: Seq<u8>)
+pub proof fn lemma_enc_ok_extw(c0: Seq<u8>, c1: Seq<u8>, q: int, nm: Seq<u8>, w0: int, w1: int)
     requires enc_ok(c0, q, nm), c0.len() <= c1.len(), forall|i: int| 0 <= i < c0.len() ==> c1[i] == c0[i]
-    ensures enc_ok(c1, q, nm), name_exp(c1, q) == name_exp(c0, q), hops(c1, q, c1.len() as int, q, 16, 0) == hops(c0, q, c0.len() as int, q, 16, 0)
+    ensures enc_ok(c1, q, nm), name_exp(c1, q) == name_exp(c0, q), hops(c1, q, c1.len() as int, q, 16, 0) == hops(c0, q, c0.len() as int, q, 16, 0),
+        avoid(c1, q, c1.len() as int, q, 16, 0, w0, w1) == avoid(c0, q, c0.len() as int, q, 16, 0, w0, w1)
 {
     lemma_hops_bounds(c0, q, c0.len() as int, q, 16, 0);
     lemma_exp_len(c0, q, c0.len() as int, q, 16, 0, None);
-    lemma_walk_transport(c0, c1, q, c0.len() as int, c1.len() as int, q, 16, 16, 0, 0, None);
+    lemma_walk_transport(c0, c1, q, c0.len() as int, c1.len() as int, q, 16, 16, 0, 0, None, w0, w1);
 }
+pub proof fn lemma_enc_ok_ext(c0: Seq<u8>, c1: Seq<u8>, q: int, nm: Seq<u8>)
+    requires enc_ok(c0, q, nm), c0.len() <= c1.len(), forall|i: int| 0 <= i < c0.len() ==> c1[i] == c0[i]
+    ensures enc_ok(c1, q, nm), name_exp(c1, q) == name_exp(c0, q), hops(c1, q, c1.len() as int, q, 16, 0) == hops(c0, q, c0.len() as int, q, 16, 0)
+{ lemma_enc_ok_extw(c0, c1, q, nm, 0, 0); }
 pub proof fn lemma_dict_ok_ext(d: SuffixDict, c0: Seq<u8>, c1: Seq<u8>)
     requires dict_ok(d, c0), c0.len() <= c1.len(), forall|i: int| 0 <= i < c0.len() ==> c1[i] == c0[i]
     ensures dict_ok(d, c1)
@@ -189,32 +276,34 @@ pub proof fn lemma_reach_from(p: Seq<u8>, off: int, i: int, k: int)
 
 // ---- one call of the name emitter: c0 = output at entry, p[off0..e) the clean pointer-free name being emitted, cur = input position reached
 // a live entry is either faithful w.r.t. the output at entry, or was remembered during this call at label boundary i < cur of this name
-pub open spec fn slot_ok(v: (Seq<u8>, int), c0: Seq<u8>, p: Seq<u8>, off0: int, cur: int, e: int) -> bool {
-    enc_ok(c0, v.1, v.0) || (exists|i: int| off0 <= i < cur && #[trigger] reach_plain(p, off0, i) && v.1 == c0.len() + (i - off0) && v.0 == p.subrange(i, e) && e - i >= 3)
+pub open spec fn from_d0(v: (Seq<u8>, int), d0: SuffixDict) -> bool { exists|s0: int| 0 <= s0 < d0.count && #[trigger] d0.view()[s0] == v }
+pub open spec fn slot_ok(v: (Seq<u8>, int), d0: SuffixDict, c0: Seq<u8>, p: Seq<u8>, off0: int, cur: int, e: int) -> bool {
+    (enc_ok(c0, v.1, v.0) && from_d0(v, d0)) || (exists|i: int| off0 <= i < cur && #[trigger] reach_plain(p, off0, i) && v.1 == c0.len() + (i - off0) && v.0 == p.subrange(i, e) && e - i >= 3)
 }
-pub open spec fn slots_ok(d: SuffixDict, c0: Seq<u8>, p: Seq<u8>, off0: int, cur: int, e: int) -> bool {
-    forall|s: int| 0 <= s < d.count ==> slot_ok(#[trigger] d.view()[s], c0, p, off0, cur, e)
+pub open spec fn slots_ok(d: SuffixDict, d0: SuffixDict, c0: Seq<u8>, p: Seq<u8>, off0: int, cur: int, e: int) -> bool {
+    forall|s: int| 0 <= s < d.count ==> slot_ok(#[trigger] d.view()[s], d0, c0, p, off0, cur, e)
 }
-pub proof fn lemma_slots_mono(d: SuffixDict, c0: Seq<u8>, p: Seq<u8>, off0: int, cur: int, cur2: int, e: int)
-    requires slots_ok(d, c0, p, off0, cur, e), cur <= cur2
-    ensures slots_ok(d, c0, p, off0, cur2, e)
+pub proof fn lemma_slots_mono(d: SuffixDict, d0: SuffixDict, c0: Seq<u8>, p: Seq<u8>, off0: int, cur: int, cur2: int, e: int)
+    requires slots_ok(d, d0, c0, p, off0, cur, e), cur <= cur2
+    ensures slots_ok(d, d0, c0, p, off0, cur2, e)
 {
-    assert forall|s: int| 0 <= s < d.count implies slot_ok(#[trigger] d.view()[s], c0, p, off0, cur2, e) by {
+    assert forall|s: int| 0 <= s < d.count implies slot_ok(#[trigger] d.view()[s], d0, c0, p, off0, cur2, e) by {
         let v = d.view()[s];
-        if !enc_ok(c0, v.1, v.0) {
+        if !(enc_ok(c0, v.1, v.0) && from_d0(v, d0)) {
             let i = choose|i: int| off0 <= i < cur && #[trigger] reach_plain(p, off0, i) && v.1 == c0.len() + (i - off0) && v.0 == p.subrange(i, e) && e - i >= 3;
             assert(off0 <= i < cur2 && reach_plain(p, off0, i));
         }
     }
 }
 // the name that starts at label boundary i of the input, as it stands in the output once the emitter has written labels up to k and a pointer to q
-pub proof fn lemma_boundary_ptr(c0: Seq<u8>, c1: Seq<u8>, p: Seq<u8>, off0: int, i: int, k: int, e: int, q: int, nmq: Seq<u8>)
+pub proof fn lemma_boundary_ptr(c0: Seq<u8>, c1: Seq<u8>, p: Seq<u8>, off0: int, i: int, k: int, e: int, q: int, nmq: Seq<u8>, w0: int, w1: int)
     requires pcs_walk(p, off0, 0) == Some(e), reach_plain(p, off0, i), reach_plain(p, off0, k), off0 <= i <= k < e,
         c1.len() == c0.len() + (k - off0) + 2, c1.subrange(0, c0.len() + (k - off0)) == c0 + p.subrange(off0, k),
         c1[c1.len() - 2] & 0xc0 == 0xc0, ptr_target(c1[c1.len() - 2], c1[c1.len() - 1]) == q,
         enc_ok(c0, q, nmq), eq_ci(nmq, p.subrange(k, e)), hops(c0, q, c0.len() as int, q, 16, 0) <= 15,
     ensures ({ let a = c0.len() + (i - off0);
-        name_end(c1, a) == Some(c1.len() as int) && eq_ci(name_exp(c1, a), p.subrange(i, e)) && c1[a] != 0 && 0 <= a < c1.len() }),
+        name_end(c1, a) == Some(c1.len() as int) && eq_ci(name_exp(c1, a), p.subrange(i, e)) && c1[a] != 0 && 0 <= a < c1.len()
+        && (w1 <= c0.len() && avoid(c0, q, c0.len() as int, q, 16, 0, w0, w1) ==> avoid(c1, a, c1.len() as int, a, 16, 0, w0, w1)) }),
 {
     let a = c0.len() + (i - off0); let x = c0.len() + (k - off0);
     let pre = c0 + p.subrange(off0, k);
@@ -229,38 +318,51 @@ pub proof fn lemma_boundary_ptr(c0: Seq<u8>, c1: Seq<u8>, p: Seq<u8>, off0: int,
     // lengths: the labels kept plus the name pointed to make up the suffix p[i..e), at most 255 bytes
     lemma_suffix_is_name(p, i, i - off0);
     assert(name_exp(c0, q).len() == e - k);
-    lemma_emit_ptr(c0, c1, a, x, q);
+    lemma_emit_ptr(c0, c1, a, x, q, w0, w1);
     assert(c1.subrange(a, x) =~= p.subrange(i, k));
     lemma_eq_ci_trans(name_exp(c0, q), nmq, p.subrange(k, e));
     lemma_eq_ci_prefix(p.subrange(i, k), name_exp(c0, q), p.subrange(k, e));
     assert(p.subrange(i, k) + p.subrange(k, e) =~= p.subrange(i, e));
     if i < k { assert(c1[a] == p[i]); } else { let hb = c1[a]; assert(hb != 0) by(bit_vector) requires hb & 0xc0 == 0xc0; }
 }
-pub proof fn lemma_finish_ptr(d: SuffixDict, c0: Seq<u8>, c1: Seq<u8>, p: Seq<u8>, off0: int, k: int, e: int, q: int, nmq: Seq<u8>)
+pub proof fn lemma_finish_ptr(d: SuffixDict, d0: SuffixDict, c0: Seq<u8>, c1: Seq<u8>, p: Seq<u8>, off0: int, k: int, e: int, q: int, nmq: Seq<u8>, w0: int, w1: int)
     requires pcs_walk(p, off0, 0) == Some(e), reach_plain(p, off0, k), off0 <= k < e,
         c1.len() == c0.len() + (k - off0) + 2, c1.subrange(0, c0.len() + (k - off0)) == c0 + p.subrange(off0, k),
         c1[c1.len() - 2] & 0xc0 == 0xc0, ptr_target(c1[c1.len() - 2], c1[c1.len() - 1]) == q,
         enc_ok(c0, q, nmq), eq_ci(nmq, p.subrange(k, e)), hops(c0, q, c0.len() as int, q, 16, 0) <= 15,
-        slots_ok(d, c0, p, off0, k, e),
+        slots_ok(d, d0, c0, p, off0, k, e),
     ensures dict_ok(d, c1), name_end(c1, c0.len() as int) == Some(c1.len() as int), eq_ci(name_exp(c1, c0.len() as int), p.subrange(off0, e)),
+        // entries faithful at entry that avoided the window still do; so do the ones remembered during this call, provided the name pointed to does
+        w1 <= c0.len() && avoid(c0, q, c0.len() as int, q, 16, 0, w0, w1) && dict_avoid(d0, c0, w0, w1) ==> dict_avoid(d, c1, w0, w1),
 {
     let x = c0.len() + (k - off0); let pre = c0 + p.subrange(off0, k);
     assert forall|j: int| 0 <= j < c0.len() implies c1[j] == c0[j] by { assert(c1.subrange(0, x)[j] == pre[j]); }
-    lemma_boundary_ptr(c0, c1, p, off0, off0, k, e, q, nmq);
+    lemma_boundary_ptr(c0, c1, p, off0, off0, k, e, q, nmq, w0, w1);
     assert forall|s: int| 0 <= s < d.count implies enc_ok(c1, #[trigger] d.view()[s].1, d.view()[s].0) by {
         let v = d.view()[s];
-        if enc_ok(c0, v.1, v.0) { lemma_enc_ok_ext(c0, c1, v.1, v.0); }
+        if enc_ok(c0, v.1, v.0) && from_d0(v, d0) { lemma_enc_ok_extw(c0, c1, v.1, v.0, w0, w1); }
         else {
             let i = choose|i: int| off0 <= i < k && #[trigger] reach_plain(p, off0, i) && v.1 == c0.len() + (i - off0) && v.0 == p.subrange(i, e) && e - i >= 3;
-            lemma_boundary_ptr(c0, c1, p, off0, i, k, e, q, nmq);
+            lemma_boundary_ptr(c0, c1, p, off0, i, k, e, q, nmq, w0, w1);
+        }
+    }
+    if w1 <= c0.len() && avoid(c0, q, c0.len() as int, q, 16, 0, w0, w1) && dict_avoid(d0, c0, w0, w1) {
+        assert forall|s: int| 0 <= s < d.count implies avoid(c1, #[trigger] d.view()[s].1, c1.len() as int, d.view()[s].1, 16, 0, w0, w1) by {
+            let v = d.view()[s];
+            if enc_ok(c0, v.1, v.0) && from_d0(v, d0) { let s0 = choose|s0: int| 0 <= s0 < d0.count && #[trigger] d0.view()[s0] == v; assert(avoid(c0, d0.view()[s0].1, c0.len() as int, d0.view()[s0].1, 16, 0, w0, w1)); lemma_enc_ok_extw(c0, c1, v.1, v.0, w0, w1); }
+            else {
+                let i = choose|i: int| off0 <= i < k && #[trigger] reach_plain(p, off0, i) && v.1 == c0.len() + (i - off0) && v.0 == p.subrange(i, e) && e - i >= 3;
+                lemma_boundary_ptr(c0, c1, p, off0, i, k, e, q, nmq, w0, w1);
+            }
         }
     }
 }
 // the same once the whole name, root label included, has been copied
-pub proof fn lemma_boundary_root(c0: Seq<u8>, c1: Seq<u8>, p: Seq<u8>, off0: int, i: int, e: int)
+pub proof fn lemma_boundary_root(c0: Seq<u8>, c1: Seq<u8>, p: Seq<u8>, off0: int, i: int, e: int, w0: int, w1: int)
     requires pcs_walk(p, off0, 0) == Some(e), reach_plain(p, off0, i), off0 <= i < e, c1 == c0 + p.subrange(off0, e),
     ensures ({ let a = c0.len() + (i - off0);
-        name_end(c1, a) == Some(c1.len() as int) && name_exp(c1, a) == p.subrange(i, e) && 0 <= a < c1.len() && (e - i >= 2 ==> c1[a] != 0) }),
+        name_end(c1, a) == Some(c1.len() as int) && name_exp(c1, a) == p.subrange(i, e) && 0 <= a < c1.len() && (e - i >= 2 ==> c1[a] != 0)
+        && (w1 <= c0.len() ==> avoid(c1, a, c1.len() as int, a, 16, 0, w0, w1)) }),
 {
     let a = c0.len() + (i - off0);
     lemma_pcs_bounds(p, off0, 0);
@@ -270,49 +372,80 @@ pub proof fn lemma_boundary_root(c0: Seq<u8>, c1: Seq<u8>, p: Seq<u8>, off0: int
     assert forall|j: int| i <= j < e implies p[j] == c1[j - i + a] by { }
     lemma_pcs_shift(p, i, c1, a, 0);
     lemma_name_exp_id(c1, a);
+    if w1 <= c0.len() { lemma_pcs_avoid(c1, a, a, 16, 0, w0, w1); }
     assert(c1.subrange(a, a + (e - i)) =~= p.subrange(i, e));
     if e - i >= 2 { assert(c1[a] == p[i]); reveal_with_fuel(pcs_walk, 2); }
 }
-pub proof fn lemma_finish_root(d: SuffixDict, c0: Seq<u8>, c1: Seq<u8>, p: Seq<u8>, off0: int, e: int)
-    requires pcs_walk(p, off0, 0) == Some(e), c1 == c0 + p.subrange(off0, e), slots_ok(d, c0, p, off0, e, e),
+pub proof fn lemma_finish_root(d: SuffixDict, d0: SuffixDict, c0: Seq<u8>, c1: Seq<u8>, p: Seq<u8>, off0: int, e: int, w0: int, w1: int)
+    requires pcs_walk(p, off0, 0) == Some(e), c1 == c0 + p.subrange(off0, e), slots_ok(d, d0, c0, p, off0, e, e),
     ensures dict_ok(d, c1), name_end(c1, c0.len() as int) == Some(c1.len() as int), eq_ci(name_exp(c1, c0.len() as int), p.subrange(off0, e)),
+        w1 <= c0.len() && dict_avoid(d0, c0, w0, w1) ==> dict_avoid(d, c1, w0, w1),
 {
     lemma_pcs_bounds(p, off0, 0);
-    lemma_boundary_root(c0, c1, p, off0, off0, e);
+    lemma_boundary_root(c0, c1, p, off0, off0, e, w0, w1);
     assert forall|s: int| 0 <= s < d.count implies enc_ok(c1, #[trigger] d.view()[s].1, d.view()[s].0) by {
         let v = d.view()[s];
-        if enc_ok(c0, v.1, v.0) { assert forall|j: int| 0 <= j < c0.len() implies c1[j] == c0[j] by { } lemma_enc_ok_ext(c0, c1, v.1, v.0); }
+        if enc_ok(c0, v.1, v.0) && from_d0(v, d0) { assert forall|j: int| 0 <= j < c0.len() implies c1[j] == c0[j] by { } lemma_enc_ok_extw(c0, c1, v.1, v.0, w0, w1); }
         else {
             let i = choose|i: int| off0 <= i < e && #[trigger] reach_plain(p, off0, i) && v.1 == c0.len() + (i - off0) && v.0 == p.subrange(i, e) && e - i >= 3;
-            lemma_boundary_root(c0, c1, p, off0, i, e);
+            lemma_boundary_root(c0, c1, p, off0, i, e, w0, w1);
+        }
+    }
+    if w1 <= c0.len() && dict_avoid(d0, c0, w0, w1) {
+        assert forall|s: int| 0 <= s < d.count implies avoid(c1, #[trigger] d.view()[s].1, c1.len() as int, d.view()[s].1, 16, 0, w0, w1) by {
+            let v = d.view()[s];
+            if enc_ok(c0, v.1, v.0) && from_d0(v, d0) { let s0 = choose|s0: int| 0 <= s0 < d0.count && #[trigger] d0.view()[s0] == v; assert(avoid(c0, d0.view()[s0].1, c0.len() as int, d0.view()[s0].1, 16, 0, w0, w1)); assert forall|j: int| 0 <= j < c0.len() implies c1[j] == c0[j] by { } lemma_enc_ok_extw(c0, c1, v.1, v.0, w0, w1); }
+            else {
+                let i = choose|i: int| off0 <= i < e && #[trigger] reach_plain(p, off0, i) && v.1 == c0.len() + (i - off0) && v.0 == p.subrange(i, e) && e - i >= 3;
+                lemma_boundary_root(c0, c1, p, off0, i, e, w0, w1);
+            }
         }
     }
 }
 // the dictionary after `insert` at label boundary cur of the name being emitted
-pub proof fn lemma_slots_insert(dpre: SuffixDict, dnew: SuffixDict, c0: Seq<u8>, p: Seq<u8>, off0: int, cur: int, cur2: int, e: int)
-    requires slots_ok(dpre, c0, p, off0, cur, e), reach_plain(p, off0, cur), off0 <= cur < cur2, dpre.index <= dpre.count,
+pub proof fn lemma_slots_insert(dpre: SuffixDict, dnew: SuffixDict, d0: SuffixDict, c0: Seq<u8>, p: Seq<u8>, off0: int, cur: int, cur2: int, e: int)
+    requires slots_ok(dpre, d0, c0, p, off0, cur, e), reach_plain(p, off0, cur), off0 <= cur < cur2, dpre.index <= dpre.count,
         dnew == dpre || (e - cur >= 3
             && dnew.count == (if dpre.index == dpre.count { dpre.count + 1 } else { dpre.count as int })
             && dnew.view()[dpre.index as int] == (p.subrange(cur, e), c0.len() + (cur - off0))
             && (forall|i: int| 0 <= i < dpre.count && i != dpre.index ==> dnew.view()[i] == #[trigger] dpre.view()[i])),
-    ensures slots_ok(dnew, c0, p, off0, cur2, e)
+    ensures slots_ok(dnew, d0, c0, p, off0, cur2, e)
 {
-    lemma_slots_mono(dpre, c0, p, off0, cur, cur2, e);
+    lemma_slots_mono(dpre, d0, c0, p, off0, cur, cur2, e);
     if dnew != dpre {
-        assert forall|s: int| 0 <= s < dnew.count implies slot_ok(#[trigger] dnew.view()[s], c0, p, off0, cur2, e) by {
+        assert forall|s: int| 0 <= s < dnew.count implies slot_ok(#[trigger] dnew.view()[s], d0, c0, p, off0, cur2, e) by {
             if s == dpre.index { assert(off0 <= cur < cur2 && reach_plain(p, off0, cur)); }
-            else { assert(dnew.view()[s] == dpre.view()[s]); assert(slot_ok(dpre.view()[s], c0, p, off0, cur2, e)); }
+            else { assert(dnew.view()[s] == dpre.view()[s]); assert(slot_ok(dpre.view()[s], d0, c0, p, off0, cur2, e)); }
         }
     }
 }
 // a hit of `insert` on the suffix at boundary cur can only be an entry that was faithful at entry (the ones remembered during this call are longer)
-pub proof fn lemma_hit_is_old(d: SuffixDict, c0: Seq<u8>, p: Seq<u8>, off0: int, cur: int, e: int, s: int)
-    requires slots_ok(d, c0, p, off0, cur, e), 0 <= s < d.count, eq_ci(d.view()[s].0, p.subrange(cur, e)), off0 <= cur <= e <= p.len()
-    ensures enc_ok(c0, d.view()[s].1, d.view()[s].0)
+pub proof fn lemma_hit_is_old(d: SuffixDict, d0: SuffixDict, c0: Seq<u8>, p: Seq<u8>, off0: int, cur: int, e: int, s: int)
+    requires slots_ok(d, d0, c0, p, off0, cur, e), 0 <= s < d.count, eq_ci(d.view()[s].0, p.subrange(cur, e)), off0 <= cur <= e <= p.len()
+    ensures enc_ok(c0, d.view()[s].1, d.view()[s].0), from_d0(d.view()[s], d0)
 {
     let v = d.view()[s];
-    if !enc_ok(c0, v.1, v.0) {
+    if !(enc_ok(c0, v.1, v.0) && from_d0(v, d0)) {
         let i = choose|i: int| off0 <= i < cur && #[trigger] reach_plain(p, off0, i) && v.1 == c0.len() + (i - off0) && v.0 == p.subrange(i, e) && e - i >= 3;
         assert(v.0.len() == e - i);
+    }
+}
+// entries faithful to the output of length <= w0 keep faithful when bytes are appended, and read nothing at or above w0
+pub proof fn lemma_dict_header(d: SuffixDict, c0: Seq<u8>, c1: Seq<u8>, w0: int, w1: int)
+    requires dict_ok(d, c0), c0.len() <= c1.len(), forall|i: int| 0 <= i < c0.len() ==> c1[i] == c0[i], c0.len() <= w0
+    ensures dict_ok(d, c1), dict_avoid(d, c1, w0, w1)
+{
+    assert forall|s: int| 0 <= s < d.count implies enc_ok(c1, #[trigger] d.view()[s].1, d.view()[s].0) && avoid(c1, d.view()[s].1, c1.len() as int, d.view()[s].1, 16, 0, w0, w1) by {
+        let q = d.view()[s].1;
+        lemma_avoid_low(c0, q, c0.len() as int, q, 16, 0, w0, w1);
+        lemma_enc_ok_extw(c0, c1, q, d.view()[s].0, w0, w1);
+    }
+}
+pub proof fn lemma_dict_ext_w(d: SuffixDict, c0: Seq<u8>, c1: Seq<u8>, w0: int, w1: int)
+    requires dict_ok(d, c0), dict_avoid(d, c0, w0, w1), c0.len() <= c1.len(), forall|i: int| 0 <= i < c0.len() ==> c1[i] == c0[i]
+    ensures dict_ok(d, c1), dict_avoid(d, c1, w0, w1)
+{
+    assert forall|s: int| 0 <= s < d.count implies enc_ok(c1, #[trigger] d.view()[s].1, d.view()[s].0) && avoid(c1, d.view()[s].1, c1.len() as int, d.view()[s].1, 16, 0, w0, w1) by {
+        lemma_enc_ok_extw(c0, c1, d.view()[s].1, d.view()[s].0, w0, w1);
     }
 }
